@@ -63,6 +63,11 @@ pub struct Sc {
     pub procs: Vec<Proc>,
     pub db_fault: Option<DbFault>,
     pub cli: bool,
+    /// the day the command-line process believes it is: handed over as an explicit `--now`
+    /// (true) or as the simulated clock of a fresh OS process (false). A conversion as of D is a
+    /// function of D and the prices, not of the day it is asked on.
+    #[serde(default)]
+    pub cli_today: Option<(Date, bool)>,
 }
 
 pub struct C09;
@@ -284,6 +289,16 @@ impl Check for C09 {
             procs,
             db_fault,
             cli: rng.chance(1, 3),
+            cli_today: if rng.chance(1, 2) {
+                let d = match rng.below(4) {
+                    0 => Date::new(2021, 1, 1),
+                    1 => Date::new(2023, 12, 15),
+                    _ => Date::new(2024, 1, 1).plus_days(rng.below(day_span + 2) as i64),
+                };
+                Some((d, rng.chance(7, 8)))
+            } else {
+                None
+            },
         }
     }
 
@@ -510,9 +525,29 @@ impl Check for C09 {
                 argv.push("--price-db".into());
                 argv.push(PRICE_DB.into());
             }
+            if let Some((d, true)) = &sc.cli_today {
+                argv.push("--now".into());
+                argv.push(d.iso());
+                out.count("probe.cli-asked-on-another-day (--now)");
+            }
             argv.extend(sv(&["-f", &root, "--", &format!("{} {}", q.qty, q.from)]));
             let p = &sc.procs[sc.procs.len() - 1];
-            let obs = crate::scen::observe(&files, &read_faults, p, today, &argv, out);
+            let mut obs = crate::scen::observe(&files, &read_faults, p, today, &argv, out);
+            if let (Some((d, false)), true) = (&sc.cli_today, read_faults.is_empty()) {
+                // the same question in a fresh OS process whose clock shows another day
+                match crate::exec::run_cli_fresh_os_process(&files, p, (d.y, d.m, d.d), &argv) {
+                    Ok(b) => {
+                        out.count("probe.cli-asked-on-another-day (clock)");
+                        out.mix(crate::prng::fnv(&b.stdout));
+                        if !b.panicked {
+                            obs.ok = b.ok;
+                            obs.stdout = b.stdout;
+                            obs.err = b.err;
+                        }
+                    }
+                    Err(_) => out.count("harness.oneshot-failed"),
+                }
+            }
             let api = &answers[&sc.ask_order[0]];
             match (api, obs.ok) {
                 (Ok(a), true) => match crate::checks::book::parse_inline_amount(obs.stdout_str().trim_end()) {
